@@ -9,6 +9,7 @@ import (
 )
 
 type Mod struct {
+	OCX      bool // the file imports openconfig-extensions as ocx (for posix-pattern)
 	Sub      bool
 	Name     string
 	Prefix   string // own prefix (module) or belongs-to prefix (submodule)
@@ -63,6 +64,7 @@ type Grouping struct {
 type TypeRef struct {
 	Name     string // qname as written
 	Patterns []string
+	Posix    []string // openconfig-extensions posix-pattern statements (the file must import that module as ocx)
 	Range    string
 	Enums    []string   // Name == "enumeration"
 	Path     string     // Name == "leafref"
@@ -146,6 +148,9 @@ func Print(m *Mod) string {
 	for _, im := range m.Imports {
 		p.line("import %s { prefix %s; }", im.Mod.Name, im.Prefix)
 	}
+	if m.OCX {
+		p.line("import openconfig-extensions { prefix ocx; }")
+	}
 	for _, in := range m.Includes {
 		p.line("include %s;", in.Name)
 	}
@@ -201,7 +206,7 @@ func (p *printer) typ(t *TypeRef) {
 		p.line("}")
 		return
 	}
-	if len(t.Patterns) == 0 && t.Range == "" {
+	if len(t.Patterns) == 0 && t.Range == "" && len(t.Posix) == 0 {
 		p.line("type %s;", t.Name)
 		return
 	}
@@ -211,6 +216,9 @@ func (p *printer) typ(t *TypeRef) {
 	}
 	for _, pt := range t.Patterns {
 		p.line("  pattern %q;", pt)
+	}
+	for _, pt := range t.Posix {
+		p.line("  ocx:posix-pattern %q;", pt)
 	}
 	p.line("}")
 }
@@ -299,6 +307,7 @@ type TSum struct {
 	Default  string
 	HasDef   bool
 	Patterns []string
+	Posix    []string // accumulated posix-patterns
 	Enums    []string // members of the enumeration the chain ends in
 	Path     string   // leafref path
 	Members  []string // base kinds of the union members, in written order
@@ -559,6 +568,7 @@ func (r *Resolver) ResolveType(t *TypeRef, depth int) *TSum {
 		}
 		c := *b
 		c.Patterns = append([]string{}, b.Patterns...)
+		c.Posix = append([]string{}, b.Posix...)
 		if td.Units != "" {
 			c.Units = td.Units
 		}
@@ -570,6 +580,18 @@ func (r *Resolver) ResolveType(t *TypeRef, depth int) *TSum {
 	}
 	out := *base
 	out.Patterns = append([]string{}, base.Patterns...)
+	out.Posix = append([]string{}, base.Posix...)
+	for _, p := range t.Posix {
+		dup := false
+		for _, q := range out.Posix {
+			if q == p {
+				dup = true
+			}
+		}
+		if !dup {
+			out.Posix = append(out.Posix, p)
+		}
+	}
 	for _, p := range t.Patterns {
 		dup := false
 		for _, q := range out.Patterns {
@@ -800,3 +822,12 @@ func fixChoice(x *X) {
 		fixChoice(x.Out)
 	}
 }
+
+// OCXText is the text of the extension module that posix-pattern statements refer to; a
+// set with Gen.Posix loads it next to the generated modules.
+const OCXText = `module openconfig-extensions {
+  namespace "urn:openconfig-extensions";
+  prefix oc-ext;
+  extension posix-pattern { argument pattern; }
+}
+`
